@@ -1,7 +1,7 @@
 SPECIFICATION Spec
 CONSTANTS
   TypesUnderTest <- AllTypes
-  K = 2
+  K = 1
   MaxMut = 1
   MutKinds <- AllMuts
   MutateAll = TRUE
